@@ -614,7 +614,7 @@ fn ent_chain(g: &mut Gen) -> String {
         11 | 12 => "occ_remove".into(),
         13 => "occ_remove_entry".into(),
         14 => format!("occ_insert {}", ent_val(g)),
-        15 => format!("occ_get_mut {}", nv),
+        15 => format!("{} {}", if g.rng.chance(1, 2) { "occ_into_mut" } else { "occ_get_mut" }, nv),
         16 => format!("replace_entry_with {} {}", ent_keep(g), nv),
         17 => format!("and_replace_entry_with {} {}", ent_keep(g), nv),
         18 | 19 => format!("vac_insert {}", ent_val(g)),
@@ -659,7 +659,7 @@ fn ent_raw_chain(g: &mut Gen) -> String {
         9 => "occ_remove_entry".into(),
         10 => format!("occ_insert {}", ent_val(g)),
         11 => format!("occ_insert_key {}", g.id()),
-        12 => format!("and_modify {}", nv),
+        12 => format!("{} {}", *g.rng.pick(&["and_modify", "into_key_value", "key_mut_get_mut"]), nv),
         13 | 14 => format!("replace_entry_with {} {}", ent_keep(g), nv),
         _ => "drop".into(),
     }
